@@ -23,6 +23,7 @@ META = {
         "function name and tenant, then the deserialized result or CallableRuntimeError carrying the recorded error. "
         "Non-trivial = an external completion between two invocations of a callback that has code between create and "
         "result, or a non-success outcome; distinct = (program shape, external plan, outcomes)."
+        " Plus LinePreempt sweeps over state.py for four fixed programs (paged and unpaged responses)."
     ),
     "assumptions": ["the external party answers each operation at most once; invoke results are JSON texts as the service returns them"],
     "budget": {
